@@ -405,6 +405,8 @@ def unresolved_guard(ctx, results):
     finding of the run is of that kind the run cannot decide: the reason is returned (exit 2).  When other findings stand on fully
     resolved paths they are verdicts: the undecidable ones are set aside (with a note on their rule) and None is returned."""
     def why(f):
+        if f.detail.get("structural"):
+            return None          # decided from scopes and statements, not from what a path computes
         if f.detail.get("unresolved"):
             return "%s %s: %s (the rule cannot tell what this path does)" % (f.rule, f.construct, f.detail["unresolved"])
         for q, reason in ctx.unresolved.items():
